@@ -99,6 +99,7 @@ extra = {"C08": "yes: downloads after an abandoned earlier transfer on the same 
          "R22C09": "yes: the method is no longer held constant - uploads by PUT, POST, FETCH, PATCH, iPATCH (one per transfer), oversize requests without Block1 under every method 1..7, downloads answering GET, FETCH, POST, DELETE",
          "R23C14": "yes: the registry key an episode expects is worked out by the driver from the request's segments (`Views!GetPath`), no longer asked of the code under test - `get_path()` is itself part of what `register` / `deregister` rely on",
          "R4C12": "yes: the two entry points of an exchange as separate steps with equal message ids on different endpoints (model MODE split, deferred responses in the mixed driver); a disturbed other key is reported under C12 in every branch",
+         "R25C20": "yes: `retain` episodes (thousands of distinct keys pass while abandoned transfers sit inside a long expiry; live-entry counts before/after) + `retain` event in Trace_BlockHandler",
          "C20": "yes: expiry under block-wise traffic on other keys (model `Other` now block-wise; driver scenario `expiry-traffic`)"}
 for d in sorted(glob.glob(os.path.join(ROOT, "seeded", "*", "meta.json"))):
     m = json.load(open(d))
